@@ -35,6 +35,16 @@ def stmts(depth, in_loop):
     return out
 
 
+def directed():
+    """an arm that stores and then leaves the routine: what it stored must not count on the other paths"""
+    out = []
+    for tail in (("pop", ("load", "x")), ("ifs", C, ("pop", ("load", "x")), None), ("seq", [("pop", ("int", 0)), ("pop", ("load", "x"))])):
+        out.append(("seq", [("ifs", C, ("seq", [("store", "x", ("int", 5)), ("return", ("int", 1))]), None), tail]))
+        out.append(("seq", [("ifs", C, ("pop", ("int", 0)), ("seq", [("store", "x", ("int", 5)), ("return", ("int", 1))])), tail]))
+        out.append(("seq", [("conds", [(C, ("seq", [("store", "x", ("int", 2)), ("return", ("int", 1))])), (("int", 1), ("pop", ("int", 3)))]), tail]))
+    return out
+
+
 # ---- specification: is there a syntactic path to a load of x with no earlier store? --------------------------
 def analyse(s, ins, loop=None):
     """ins: set of possible 'assigned' flags at entry. Returns (outs, bad, breaks, conts) where outs = flags at normal exit."""
@@ -154,6 +164,7 @@ def run(report: Report, tier, seed):
     S = stmts(2, False)
     if tier == "quick":
         S = S[::3] + S[:40]
+    S = S + directed()
     jobs = []
     for i, s in enumerate(S):
         v = [4, 6, 8, 10][i % 4]
